@@ -236,5 +236,10 @@ def emit_coq(rows, path):
     with open(path, "w") as f:
         f.write("(* generated on this run: argument flow of every plain C wrapper found in the generated sources *)\n")
         f.write("From Coq Require Import List String.\nFrom Shroud Require Import Model.CallEq.\nImport ListNotations.\nOpen Scope string_scope.\n")
-        f.write("Definition flows : list wrapper :=\n  [" + ";\n   ".join(items) + "].\n")
+        # (one list literal of several megabytes overflows coqc's stack: the table is written in pieces and concatenated)
+        CH = 2000
+        pieces = [items[i:i + CH] for i in range(0, len(items), CH)] or [[]]
+        for k, piece in enumerate(pieces):
+            f.write("Definition flows_%d : list wrapper :=\n  [" % k + ";\n   ".join(piece) + "].\n")
+        f.write("Definition flows : list wrapper := " + " ++ ".join("flows_%d" % k for k in range(len(pieces))) + ".\n")
     return len(items)
